@@ -87,21 +87,23 @@ def walk_from0(rec: Sequence[int]) -> List[int]:
 _ENVS: Dict[tuple, object] = {}
 
 
-def kopt_env(n: int, K: int, init: str = "random", torchrl: bool = False):
-    key = ("kopt", n, K, init, torchrl)
+def kopt_env(n: int, K: int, init: str = "random", torchrl: bool = False, check_solution: bool = True):
+    key = ("kopt", n, K, init, torchrl, check_solution)
     if key not in _ENVS:
         from rl4co.envs.routing.tsp.env import TSPkoptEnv
 
-        _ENVS[key] = TSPkoptEnv(generator_params=dict(num_loc=n, init_sol_type=init), k_max=K, _torchrl_mode=torchrl)
+        _ENVS[key] = TSPkoptEnv(generator_params=dict(num_loc=n, init_sol_type=init), k_max=K, _torchrl_mode=torchrl,
+                                check_solution=check_solution)
     return _ENVS[key]
 
 
-def pdp_env(gs: int, init: str = "random", torchrl: bool = False, train: bool = True):
-    key = ("pdp", gs, init, torchrl, train)
+def pdp_env(gs: int, init: str = "random", torchrl: bool = False, train: bool = True, check_solution: bool = True):
+    key = ("pdp", gs, init, torchrl, train, check_solution)
     if key not in _ENVS:
         from rl4co.envs.routing.pdp.env import PDPRuinRepairEnv
 
-        env = PDPRuinRepairEnv(generator_params=dict(num_loc=gs - 1, init_sol_type=init), _torchrl_mode=torchrl)
+        env = PDPRuinRepairEnv(generator_params=dict(num_loc=gs - 1, init_sol_type=init), _torchrl_mode=torchrl,
+                               check_solution=check_solution)
         if not train:
             env.eval()  # `_reset` sizes `action_record` by `self.training`
         _ENVS[key] = env
@@ -215,6 +217,28 @@ def peaked_rand(choices_per_call: List[List[int]]):
         yield
     finally:
         torch.rand = real
+
+
+@contextlib.contextmanager
+def record_decoding():
+    """record, for every call of `DecodingStrategy.step` made by a policy, the mask it hands over and the index
+    the strategy selects (the only thing of the network's output that enters the move)"""
+    from rl4co.utils import decoding
+
+    calls = []
+    orig = decoding.DecodingStrategy.step
+
+    def step(self, logits, mask=None, *a, **kw):
+        out = orig(self, logits, mask, *a, **kw)
+        sel = out[1] if isinstance(out, tuple) and len(out) == 2 else None
+        calls.append((None if mask is None else mask.clone(), None if sel is None else sel.clone().reshape(-1)))
+        return out
+
+    decoding.DecodingStrategy.step = step
+    try:
+        yield calls
+    finally:
+        decoding.DecodingStrategy.step = orig
 
 
 def seed_torch(ctx):
@@ -399,7 +423,7 @@ def run_kopt(ctx):
             ctx.count(f"kopt2.random.kind={kind}")
         _cmp_op2(ctx, n, recs, acts, "random")
     for _ in range(ctx.budget(6, 40)):
-        _kopt2_random_action(ctx, ctx.rng.choice([3, 4, 5, 8, 20]), 16)
+        _kopt2_random_action(ctx, ctx.rng.choice([3, 4, 5, 8, 20, 50]), 16)
     # (2) k-opt: every node sequence the builder admits, tiny n
     grid = [(4, 3), (5, 3), (5, 4), (6, 3), (6, 4), (7, 5), (8, 6)] if not thorough else \
         [(4, 3), (4, 4), (5, 3), (5, 4), (5, 5), (6, 3), (6, 4), (6, 5), (7, 3), (7, 4), (7, 5), (8, 4), (8, 6)]
@@ -569,7 +593,7 @@ def run_pdprr(ctx):
         _cmp_pdp_op(ctx, gs, recs, acts, "random")
         _pdp_masks(ctx, gs, recs[:3])
     for _ in range(ctx.budget(6, 40)):
-        _pdp_random_action(ctx, ctx.rng.choice([3, 5, 7, 11, 21]), 16)
+        _pdp_random_action(ctx, ctx.rng.choice([3, 5, 7, 11, 21, 51]), 16)
 
 
 # ------------------------------------------------------------------------------------------------
@@ -813,15 +837,19 @@ def run_bsf(ctx):
     while rows < total:
         kind = [2, 0, 3, 4, 5, 6, 2, 0][it % 8]
         it += 1
+        big = ctx.rng.random() < 0.08  # sizes beyond 25 nodes (other tensor code paths), kept rare: the model is O(n³) per step
         if kind == 0:
-            n = ctx.rng.choice([3, 5, 7, 9, 11])
+            n = ctx.rng.choice([27, 41]) if big else ctx.rng.choice([3, 5, 7, 9, 11])
         else:
-            n = ctx.rng.choice([3, 4, 5, 6, 8, 11]) if kind == 2 else ctx.rng.choice([kind + 1, 7, 8, 11])
+            n = ctx.rng.choice([26, 40]) if big else \
+                (ctx.rng.choice([3, 4, 5, 6, 8, 11]) if kind == 2 else ctx.rng.choice([kind + 1, 7, 8, 11]))
         # k-opt (K > 2): `_random_action` indexes with a `.squeeze()`d [1,1] tensor and raises IndexError for a
         # batch of ONE row (so does NeuOptPolicy); PDPRuinRepairEnv._step raises RuntimeError (overlapping in-place
         # shift of `action_record`) for a batch of ONE row.  No move / observable is produced, so both are outside
         # C09 (reported separately) — B ≥ 2 there
         B = ctx.rng.choice([1, 2, 3, 5]) if kind == 2 else ctx.rng.choice([2, 3, 5])
+        if big:
+            B = min(B, 2)
         env, opts = pick_env(ctx, kind, n)
         # rows of ONE batch differ in magnitude (small scales over-represented: improvements of 1e-8 … 1e-4)
         geos = [gen_geo(ctx.rng, n) for _ in range(B)]
@@ -841,19 +869,41 @@ def run_bsf(ctx):
                 if sp[r]["valid"] != "1":
                     ctx.violation("reset:initial-solution-invalid", "the generator's initial solution is not a valid tour",
                                   {"kind": kind, "n": n, "opts": opts, "rec0": tr.cur[r][0], "pts": geos[r]["pts"]})
-        for t in range(T):
+        def advance(td_, tr_, B_):
             if ctx.rng.random() < 0.08:
-                mv, td = jump(ctx, env, kind, n, td)
+                mv_, td_ = jump(ctx, env, kind, n, td_)
             else:
-                mv = real_moves(ctx, env, kind, n, td, how)
-                td.set("action", torch.tensor(mv, dtype=torch.long))
-                td = env.step(td)["next"]
-            for r in range(B):
-                tr.moves[r].append(mv[r])
-            tr.snap(td, False)
+                mv_ = real_moves(ctx, env, kind, n, td_, how)
+                td_.set("action", torch.tensor(mv_, dtype=torch.long))
+                td_ = env.step(td_)["next"]
+            for r_ in range(B_):
+                tr_.moves[r_].append(mv_[r_])
+            tr_.snap(td_, False)
+            return td_
+
+        reuse = ctx.rng.random() < 0.3
+        t_mid = ctx.rng.randrange(1, T - 1)
+        td2 = tr2 = geos2 = None
+        for t in range(T):
+            if reuse and t == t_mid:
+                # the SAME env object is reset with another batch (other size, other instances) in the middle of
+                # this episode; from now on the two episodes are stepped alternately
+                B2 = ctx.rng.choice([b for b in ([1, 2, 3, 4] if kind == 2 else [2, 3, 4]) if b != B])
+                geos2 = [gen_geo(ctx.rng, n) for _ in range(B2)]
+                td2 = reset_with(env, kind, geos2, [rand_pdp_tour(ctx.rng, n) if kind == 0 else rand_tour(ctx.rng, n) for _ in range(B2)])
+                tr2 = Trace(B2, [g["exp"] for g in geos2])
+                tr2.snap(td2, True)
+            td = advance(td, tr, B)
+            if td2 is not None:
+                td2 = advance(td2, tr2, len(geos2))
         if tr.inexact:
             ctx.count("bsf.inexact-cost-rows")
         what = {0: "pdprr", 2: "kopt2"}.get(kind, "koptk")
+        if td2 is not None:
+            ctx.count("bsf.env-object-reused(second-batch-of-other-size-reset-mid-episode)")
+            judge_batch(ctx, kind, n, geos2, tr2, "bsf")
+            for r in range(len(geos2)):
+                judge_trace(ctx, kind, n, geos2[r], tr2, r, f"bsf.{what}", opts=dict(opts, reused_env=True))
         judge_batch(ctx, kind, n, geos, tr, "bsf")
         for r in range(B):
             judge_trace(ctx, kind, n, geos[r], tr, r, f"bsf.{what}", opts=opts)
@@ -899,18 +949,73 @@ def make_policy(name: str, ctx):
     return pol.eval(), opts
 
 
+def check_decoding(ctx, name, kind, n, cur, prev_action, calls, mv, opts):
+    """the modelled DECODING of the policies (Env/Improve.lean: dactMask / dactMove / n2s… / the k-opt builder) against
+    what the real policy handed to / got from the decoding strategy"""
+    B = len(cur)
+    bits = lambda row: "".join("1" if x else "0" for x in row.tolist())
+    if name == "dact" and len(calls) == 1 and calls[0][1] is not None:
+        mask, sel = calls[0]
+        lines = [f"improve.pdact {n} | {J(prev_action[r]) if prev_action else ''} | {int(sel[r])}" for r in range(B)]
+        for r, rep in enumerate(ctx.driver.ask_many(lines)):
+            f = parse_fields(rep)
+            k = int(sel[r])
+            real_bit = bool(mask[r, k])
+            if ilist(f.get("move", "")) != mv[r] or (f.get("mask") == "1") != real_bit:
+                ctx.disagreement("DACT decoding differs (mask entry / move of the selected flat index)",
+                                 {"n": n, "prev": prev_action[r] if prev_action else None, "k": k, "real_move": mv[r],
+                                  "real_mask_entry": real_bit, "model": rep, "opts": opts})
+            if not real_bit:
+                ctx.violation("policy.dact:strategy-selected-masked-entry", "the decoding strategy returned an index whose mask entry is false",
+                              {"n": n, "k": k, "move": mv[r], "opts": opts})
+        ctx.count("policy.dact.decoding-steps", B)
+    elif name == "n2s" and len(calls) == 2 and calls[1][1] is not None:
+        (m0, s0), (m1, s1) = calls
+        lines = [f"improve.pn2s {n} | {J(cur[r])} | {prev_action[r][0] if prev_action else ''} | {int(s0[r])} {int(s1[r])}" for r in range(B)]
+        for r, rep in enumerate(ctx.driver.ask_many(lines)):
+            f = parse_fields(rep)
+            pi, k = int(s0[r]), int(s1[r])
+            rb, mb = bool(m0[r, pi]), bool(m1[r, k])
+            if ilist(f.get("move", "")) != mv[r] or (f.get("rmask") == "1") != rb or (f.get("mask") == "1") != mb:
+                ctx.disagreement("N2S decoding differs (removal mask / reinsertion mask entry / move)",
+                                 {"gs": n, "rec": cur[r], "prev": prev_action[r] if prev_action else None, "pi": pi, "k": k,
+                                  "real_move": mv[r], "real_masks": [rb, mb], "model": rep, "opts": opts})
+            if not (rb and mb):
+                ctx.violation("policy.n2s:strategy-selected-masked-entry", "the decoding strategy returned an index whose mask entry is false",
+                              {"gs": n, "pi": pi, "k": k, "move": mv[r], "opts": opts})
+        ctx.count("policy.n2s.decoding-steps", B)
+    elif name == "neuopt" and len(calls) == kind and all(c[0] is not None for c in calls):
+        lines = []
+        for r in range(B):
+            m0 = [0] * n
+            if prev_action:
+                m0[prev_action[r][0]] = 1
+            lines.append(f"improve.koptgen {n} {kind} | {J(cur[r])} | {J(m0)} | {J(mv[r][:kind])}")
+        for r, rep in enumerate(ctx.driver.ask_many(lines)):
+            model_masks = parse_fields(rep).get("masks", "").split(",")
+            real_free = [bits(calls[i][0][r]) for i in range(kind)]
+            real_masked = ["".join("0" if c == "1" else "1" for c in row) for row in real_free]
+            if model_masks != real_masked:
+                ctx.disagreement("NeuOpt: the masks handed to the decoding strategy differ from the modelled builder's masks",
+                                 {"n": n, "K": kind, "rec": cur[r], "nodes": mv[r][:kind], "real_masked": real_masked,
+                                  "model_masked": model_masks, "opts": opts})
+        ctx.count("policy.neuopt.decoding-substeps", B * kind)
+    else:
+        ctx.count(f"policy.{name}.decoding-hook-miss")
+
+
 def run_policies(ctx):
     total = ctx.budget(18, 300)
     T = 24
     for it in range(total):
         name = ["dact", "n2s", "neuopt", "neuopt"][it % 4]
         if name == "dact":
-            kind, n = 2, ctx.rng.choice([3, 4, 5, 7, 10])
+            kind, n = 2, ctx.rng.choice([3, 4, 5, 7, 10, 26])
         elif name == "n2s":
-            kind, n = 0, ctx.rng.choice([5, 7, 9, 11])
+            kind, n = 0, ctx.rng.choice([5, 7, 9, 11, 27])
         else:
             kind = [3, 4, 5, 6][(it // 4) % 4]
-            n = ctx.rng.choice([kind + 1, 7, 2 * kind + 3, 20])
+            n = ctx.rng.choice([kind + 1, 7, 2 * kind + 3, 20, 30])
         env, eopts = pick_env(ctx, kind, n)
         if name == "n2s" and not eopts["training"] and n < 7:
             # in eval mode `action_record` has gs//2 rows and N2S' removal decoder reads its last THREE rows: with
@@ -941,9 +1046,21 @@ def run_policies(ctx):
             seed_torch(ctx)
             cur = td["rec_current"].tolist()
             prev_first = td["action"][:, 0].tolist() if "action" in td.keys() else None
-            with torch.no_grad():
+            prev_action = td["action"].tolist() if "action" in td.keys() else None
+            td_before = td.clone() if ctx.rng.random() < 0.25 else None
+            with torch.no_grad(), record_decoding() as calls:
                 pol(td, env, phase=phase, **dict(dkw))
             mv = td["action"].tolist()
+            check_decoding(ctx, name, kind, n, cur, prev_action, calls, mv, opts)
+            if td_before is not None:
+                # evaluate mode (`actions=` given): the policy must emit exactly the move it is asked to evaluate
+                with torch.no_grad():
+                    pol(td_before, env, phase=phase, actions=torch.tensor(mv, dtype=torch.long), **dict(dkw))
+                ctx.count(f"policy.{name}.evaluate-mode-calls")
+                if td_before["action"].tolist() != mv:
+                    ctx.violation(f"policy.{name}:evaluate-emits-other-move",
+                                  "called with `actions=` the policy puts a different move into td['action'] than the one given",
+                                  {"policy": name, "n": n, "kind": kind, "rec": cur, "given": mv, "emitted": td_before["action"].tolist(), "opts": opts})
             # every emitted move must be admitted by the mask (judged on the model's mask of the current tour)
             if kind == 2:
                 oks = [0 <= a < n and 0 <= b < n and a != b for a, b in mv]
@@ -1059,6 +1176,26 @@ def run_checker(ctx, kind: int):
             td = TensorDict({"rec_best": torch.tensor([rec], dtype=torch.long)}, batch_size=[1])
             real = rl.checker_accepts(env, td, None)
             row_verdict.append(bool(real))
+            # the same verdict through the public entry point `env.get_reward(td, actions)`: with check_solution=True the
+            # checker runs first (AssertionError = rejected), then `_get_reward` of an improvement env raises
+            # NotImplementedError (= the checker let it through); with check_solution=False nothing is checked
+            for cs in (True, False):
+                e2 = pdp_env(n, check_solution=cs) if kind == 0 else kopt_env(n, 2, check_solution=cs)
+                try:
+                    e2.get_reward(td, None)
+                    via = "returned"
+                except AssertionError:
+                    via = "rejected"
+                except NotImplementedError:
+                    via = "passed"
+                except Exception as ex:  # e.g. torch shape errors of the slices
+                    via = "rejected" if not real else f"error:{type(ex).__name__}"
+                expect = ("passed" if real else "rejected") if cs else "passed"
+                ctx.count(f"check.{name}.via-get_reward.check_solution={cs}.{via}")
+                if via != expect:
+                    ctx.violation(f"{name}-checker:get_reward-path-differs",
+                                  "env.get_reward does not apply the checker as configured by `check_solution`",
+                                  {"n": n, "rec_best": rec, "check_solution": cs, "direct_verdict": bool(real), "via_get_reward": via})
             valid = f["valid"] == "1"
             ctx.case((name, "check", tuple(rec)), nontrivial=label != "valid")
             ctx.count(f"check.{name}.{label}.valid={int(valid)}.accepted={int(bool(real))}")
@@ -1207,6 +1344,11 @@ if _has("Rl4co/Props/C09/ImproveBsf.lean"):
                 "Bsf invariants for the executed `_reset`/`_step` (tokens from the source): costs = lengths of stored tours, "
                 "cost_bsf ≤ length of the current tour after every prefix of the move sequence"),
         Theorem("Rl4co.Improve.Code.step_vt", "proved", "the executed `_step` stores visited_time = the walk stamps the mask theorems use"),
+        Theorem("Rl4co.Improve.Bsf.rewards_telescope", "proved",
+                "C09 literally: Σ_t reward_t = cost(rec₀) − cost_bsf_T for any operator and any move list"),
+        Theorem("Rl4co.Improve.Bsf.rewards_eq_decreases", "proved",
+                "C09 literally: the reward list is the list of consecutive differences of the best-so-far costs"),
+        Theorem("Rl4co.Improve.Bsf.rewards_nonneg", "proved", "every reward of every run is ≥ 0"),
         Theorem("Rl4co.Improve.Batch.batchStep_eq_map", "proved",
                 "the column-wise batched `_step` (masked in-place overwrite of rec_best) = per-row `_step`, any batch size, any tokens"),
         Theorem("Rl4co.Improve.Batch.batchRun_row", "proved",
@@ -1282,10 +1424,29 @@ register(Unit("C09", "kopt", run_kopt, drivers=["drv_improve"], replay=replay_tr
                            "the decidable KoptMoveWF on every action the real code emits (ties model↔code, not needed for the proof)"]
               + ([] if _kopt_thms else [_NO_THM])))
 
-register(Unit("C09", "policies", run_policies, drivers=["drv_improve"], lean_modules=[], theorems=[], replay=replay_trace,
+_pol_thms = []
+if _has("Rl4co/Props/C09/ImprovePolicy.lean"):
+    _pol_thms = [
+        Theorem("Rl4co.Improve.Policy.decode_ok", "proved",
+                "translator obligation: DACT and N2S assemble the pair as (k // seq_length, k % seq_length); N2S asks for the mask of pickup node action_removal + 1"),
+        Theorem("Rl4co.Improve.Policy.dact_move_admitted", "proved",
+                "DACT: whatever the network computes, a selected flat index with a true mask entry decodes to an in-range move admitted by get_mask"),
+        Theorem("Rl4co.Improve.Policy.dact_move_fresh", "proved", "DACT never repeats its previous move in either orientation"),
+        Theorem("Rl4co.Improve.Policy.dact_preserves", "proved", "hence every DACT move keeps the tour a single n-cycle"),
+        Theorem("Rl4co.Improve.Policy.n2s_move_admitted", "proved",
+                "N2S: selected pair index + selected flat reinsertion index with a true mask entry decode to a move admitted by get_mask"),
+        Theorem("Rl4co.Improve.Policy.n2s_preserves", "proved", "hence every N2S move keeps a valid PDP tour valid"),
+        Theorem("Rl4co.Improve.Policy.neuopt_preserves", "proved",
+                "NeuOpt: its decoding loop is the modelled builder (previous first node masked); every emitted action keeps the tour a tour"),
+    ]
+register(Unit("C09", "policies", run_policies, drivers=["drv_improve"],
+              lean_modules=["Rl4co.Props.C09.ImprovePolicy"] if _pol_thms else [], theorems=_pol_thms, replay=replay_trace,
               assumptions=[MODEL_NOTE,
-                           "policies are neural networks (uninterpreted): their emitted moves are checked against the masks "
-                           "at run time on sampled trajectories only; validity of the resulting tours then follows from the "
+                           "policies: the networks are uninterpreted, but the DECODING of a move from the index the decoding strategy "
+                           "selects is modelled and proved (Policy.*): the only assumption left is 'the selected index has a true mask "
+                           "entry' (C10's theorems; also checked on every recorded call). The harness records every DecodingStrategy.step "
+                           "call of the real policies (mask handed over, index selected) and compares mask entries / decoded moves / "
+                           "NeuOpt's per-sub-step masks with the model; validity of the resulting tours follows from the "
                            "move theorems of units kopt/pdprr (2-opt: Kopt.twoOpt_preserves, N2S: PdpRR.preserves, NeuOpt: its "
                            "mask loop is the modelled builder, Kopt.kopt_preserves)"]))
 
@@ -1323,6 +1484,18 @@ for _kind, _name in ((2, "kopt"), (0, "pdprr")):
                               "soundness up to the sub-tour defect: valid PDP tour ⟺ accepted ∧ walk from the depot meets every node"),
                       Theorem("Rl4co.Improve.Check.code_checkPdp_eq", "proved",
                               "translator tie: the executed checker model (tokens from the source) is the one of the theorems")]
+        if _kind == 2:
+            _thms += [Theorem("Rl4co.Improve.Check.kopt_repaired_iff", "proved",
+                              "repaired clause: with `(visited_time > 0).all()` added the k-opt checker accepts EXACTLY the single n-cycles"),
+                      Theorem("Rl4co.Improve.Check.isTour_succ_mod", "proved", "Spec sanity: a tour exists for every n > 0 (j ↦ j+1 mod n)"),
+                      Theorem("Rl4co.Improve.Check.cost_reverse", "proved",
+                              "Spec sanity: for symmetric D the reversed tour (rec.argsort()) has the same length"),
+                      Theorem("Rl4co.Improve.Check.cost_eq_sum_listing", "proved", "Spec sanity: the tour length is the sum of D along any listing of the nodes")]
+        else:
+            _thms += [Theorem("Rl4co.Improve.Check.pdp_repaired_iff", "proved",
+                              "repaired clause: with `(visited_time > 0).all()` added the PDP checker accepts EXACTLY the valid PDP tours"),
+                      Theorem("Rl4co.Improve.Check.stamped_iff_mem", "proved", "a node is stamped by the visited_time walk iff the walk meets it"),
+                      Theorem("Rl4co.Improve.Check.before_asymm", "proved", "Spec sanity: `Before` is asymmetric and irreflexive on duplicate-free sequences")]
         _thms.append(Theorem("Rl4co.Improve.Check.checkParams_ok", "proved",
                              "translator obligation: `arange == sort(rec_best)`, `visited_time[pickups] < visited_time[deliveries]`, stamps i+1"))
         _thms.append(Theorem("Rl4co.Improve.isTourB_iff", "proved",
